@@ -92,6 +92,30 @@ def main(tier, seed):
                     rep.violation("%s raises ZeroDivisionError on its domain" % name, dict(metric=name, x=xl, y=yl, z=zl), key=key)
                 continue
             stats["evaluations"] += 5
+            # the same checks with the first argument held in a caller-owned buffer that is refilled in place
+            try:
+                buf = x.copy()
+                f(buf, y)
+                buf[:] = y
+                bself = f(buf, y)            # identical contents: zero self-distance
+                buf[:] = z
+                bzy, byz2 = f(buf, y), f(y, buf)
+            except ZeroDivisionError:
+                bself, bzy, byz2 = fxx, 0.0, 0.0
+            if "zero_self" in claims and xl != yl and abs(bself) > 1e-7 * max(1.0, max(abs(v) for v in yl)):
+                nviol += 1
+                key = "zero_self:" + name
+                if key not in seen_keys and len(seen_keys) < 6:
+                    seen_keys.add(key)
+                    rep.violation("%s(buffer, y) = %r after the buffer was refilled in place with y's values, expected 0" % (name, bself),
+                                  dict(metric=name, x=xl, y=yl, z=zl, note="buffer first holds x, then y"), key=key)
+            elif "sym" in claims and abs(bzy - byz2) > 1e-9 * max(1.0, abs(bzy), abs(byz2)):
+                nviol += 1
+                key = "sym:" + name
+                if key not in seen_keys and len(seen_keys) < 6:
+                    seen_keys.add(key)
+                    rep.violation("%s is not symmetric on a buffer refilled in place: f(buf,y)=%r, f(y,buf)=%r" % (name, bzy, byz2),
+                                  dict(metric=name, x=xl, y=yl, z=zl, note="buffer holds x, then y, then z"), key=key)
             rep.count_case((name, tuple(xl), tuple(yl), tuple(zl)), True)
             scale = max(1.0, abs(fxy), abs(fyz), abs(fxz))
             msg = key = None
